@@ -149,7 +149,7 @@ func c10Plan(t core.Tier) (sent, mut, seq, rnd int) {
 	mut = 24
 	rnd = 8
 	if t == core.Thorough {
-		mut, rnd = 400, 100
+		mut, rnd = 6000, 2000
 	}
 	seq = (c10SeqCount(c10MaxLen(t)) + c10SeqChunk - 1) / c10SeqChunk
 	return
